@@ -28,3 +28,12 @@ func (chain *Blockchain) VerifValidateOnCheck(block *types.Block) (*appstate.App
 func (chain *Blockchain) VerifRepo() *database.Repo { return chain.repo }
 
 func (chain *Blockchain) VerifAppState() *appstate.AppState { return chain.appState }
+
+// VerifRelease drops the references of a scratch node the harness is done with: the chain's ipfs
+// loader goroutine never ends and would keep the whole object graph (pool, state, detector
+// buffers, database) reachable for the rest of the process. The chain must not be used afterwards.
+func (chain *Blockchain) VerifRelease() {
+	chain.txpool, chain.appState, chain.offlineDetector, chain.upgrader = nil, nil, nil, nil
+	chain.repo, chain.secStore, chain.bus, chain.indexer, chain.subManager = nil, nil, nil, nil, nil
+	chain.applyNewEpochFn, chain.middlewares = nil, nil
+}
